@@ -4,8 +4,13 @@ import session_common as SC
 
 
 def tasks(tier, seed):
-    ts = CC.rt_tasks(tier, kinds={'roundtrip', 'idempotence', 'uncaught_exception', 'terminate'})
+    # a decoder that consumes fewer/more bytes than were emitted shifts every following object: part of the round trip
+    ts = CC.rt_tasks(tier, kinds={'roundtrip', 'idempotence', 'uncaught_exception', 'terminate', 'framing'})
+    # lemma: the write pipeline cannot deadlock for ANY configured container size (otherwise nothing is read back)
+    import c06
+    ts += [t for t in c06.tasks(tier, seed)[0] if t.tid == 'probe.h_write_session']
     ts += SC.session_tasks(tier, ['CHECK_C01'], 'session', ('C01:',))
+    ts += CC.big_tasks(tier, kinds={'roundtrip', 'idempotence', 'uncaught_exception', 'terminate'})
     meta = dict(
         level='model_checking',
         explanation='Lemma L1 of the compositional argument in DESIGN.md: for every creatable class, an object '
